@@ -173,6 +173,48 @@ def check(ctx):
     ctx.ob("xml.bool-literals", te, "text written for booleans", okb, "writes %r/%r, which the reader maps to True/False" % lits if okb else
            "the boolean text written (%s) is not what the reader maps back to True/False" % (lits,))
 
+    # string payload is written and read unmodified
+    from engine.defuse import reaching_defs
+    rdefs = reaching_defs(fe)
+    gfe = an.cfg(fe)
+    for tag, (kinds, tnode) in rt.items():
+        if tag != wt.get("str", (None,))[0]:
+            continue
+        for s2, lbl in tnode.succ:
+            if lbl is not True:
+                continue
+            for n in gfe.reachable([s2], may_raise=lambda x: False, stop=lambda x: x.kind == "test"):
+                if n.kind == "assign" and isinstance(n.ast, ast.Assign) and isinstance(n.ast.value, ast.Name):
+                    bad = None
+                    for d in rdefs.reaching(n, n.ast.value.id):
+                        v = d.value
+                        if d.kind != "assign" or v is None:
+                            bad = "unknown origin"
+                            continue
+                        is_text = any(isinstance(x, ast.Attribute) and x.attr == "text" for x in ast.walk(v)) and not any(
+                            isinstance(x, ast.Call) for x in ast.walk(v))
+                        is_empty = isinstance(v, ast.Constant) and v.value == ""
+                        if is_text:
+                            continue
+                        if is_empty:
+                            guards = dominating_guards(an, fe, d.node)
+                            okg = any((isinstance(t.ast, ast.Name) and not tr) or
+                                      (isinstance(t.ast, ast.Compare) and isinstance(t.ast.ops[0], ast.Is) and tr) for t, tr in guards)
+                            if okg:
+                                continue
+                            bad = "replaced by '' at line %s under a condition other than 'no text'" % d.node.lineno
+                        else:
+                            bad = "transformed by `%s`" % ast.unparse(v)[:40]
+                    ctx.ob("xml.str-payload-verbatim", fe, n.ast, bad is None,
+                           "a string element decodes to its text exactly ('' when the element has none)" if bad is None else
+                           "the text of a string element is %s before it becomes the value: strings do not survive the round trip" % bad, node=n)
+    for n in g.nodes:
+        if n.kind == "assign" and isinstance(n.ast, ast.Assign) and any(isinstance(t, ast.Attribute) and t.attr == "text" for t in n.ast.targets):
+            if "str" in wt and n in wt["str"][2]:
+                okw = all(k == "param" for k, _ in value_sources(te, n.ast.value, n))
+                ctx.ob("xml.str-payload-verbatim", te, n.ast, okw, "a string is written as the element text unchanged" if okw else
+                       "the writer transforms string values before writing them", node=n)
+
     # ---------------------------------------------------------------- C04.3
     loads, dumps = model.method("XmlConfigFormat", "loads"), model.method("XmlConfigFormat", "dumps")
     g = an.cfg(loads)
